@@ -1266,14 +1266,16 @@ def check(tier: str) -> int:
     import re as _re
     for r, msg in sorted(umon, key=lambda x: len(x[0].case())):
         key = _re.sub(r"\d+", "N", msg)          # one replay per kind of message, the shortest case of each
-        if key in seen or len(seen) >= 5:
+        if key in seen or id(r) in seen or len(seen) >= 8:
             continue
         seen.add(key)
+        seen.add(id(r))
         rep.violation(msg, {"kind": "monitor", "model": "UnixLoop", "call": "send" if r.kind == 0 else "receive",
                             "cancel0": r.cancel0, "busy": r.busy, "closing0": r.closing0, "max_bytes": r.mx, "item": r.item,
                             "script": [list(e) for e in r.script], "script_readable": script_readable(r.kind, r.script),
                             "intruders": [(ENTRYN[a], {7: "BusyResourceError", 14: "accepted"}.get(c, "other error"), f"after {at} bytes") for a, c, at in r.intr],
                             "send_call_args": [list(a) for a in r.send_args[:8]], "handed": list(r.handed), "case": r.case(),
+                            "all_messages": r.mon[:6],
                             "replay": "c18.UnixRun(kind, cancel0, busy, closing0, mx, item, script).execute().mon"})
     seen = set()
     for d, v in e2e_viol:
